@@ -157,25 +157,7 @@ def Conv (sid : StateId) (snap : Snap) (res : List Responder) (v : View) : Prop 
 instance (sid : StateId) (snap : Snap) (res : List Responder) (v : View) : Decidable (Conv sid snap res v) := by
   unfold Conv; infer_instance
 
-/-! ### The named hypotheses of the `permitExpunge = false` theorems -/
-
-/-- Walks the queue like `popAux` (`skip` = `skipIDs`) and remembers in `held` the ids whose EXISTS
-    was held back (re-add behind a pending removal) and not followed by another removal yet.
-    `false` iff some `fetch id` is queued while `id ∈ held`. -/
-def fetchSafeAux (skip held : List MsgId) : List Responder → Bool
-  | [] => true
-  | .expunge id :: rs =>
-    fetchSafeAux (if skip.contains id then skip else id :: skip) (held.filter (· != id)) rs
-  | .exists id .. :: rs =>
-    if skip.contains id then fetchSafeAux (skip.filter (· != id)) (id :: held) rs
-    else fetchSafeAux skip held rs
-  | .fetch id .. :: rs => !held.contains id && fetchSafeAux skip held rs
-
-/-- **NoFetchAfterHeldReadd** (excludes defect #10): no flag change for a message is queued behind
-    a re-add of that message which a `permitExpunge = false` flush holds back. -/
-def FetchSafe (res : List Responder) : Prop := fetchSafeAux [] [] res = true
-
-instance (res : List Responder) : Decidable (FetchSafe res) := by unfold FetchSafe; infer_instance
+/-! ### The named hypothesis of the `permitExpunge = false` theorems -/
 
 namespace Responder
 
@@ -192,14 +174,6 @@ def uidOr0 : Responder → UID
 
 end Responder
 
-/-- **NoOwnReaddHeld** (excludes defect #8): a `permitExpunge = false` flush of this queue holds
-    back no EXISTS that the session created itself. -/
-def NoOwnHeld (sid : StateId) (res : List Responder) : Prop :=
-  ∀ r ∈ (popResponders false res).2, r.isOwnExists sid = false
-
-instance (sid : StateId) (res : List Responder) : Decidable (NoOwnHeld sid res) := by
-  unfold NoOwnHeld; infer_instance
-
 /-- the UIDs announced by the queued EXISTS responders, in queue order -/
 def existsUids (res : List Responder) : List UID :=
   res.filterMap fun r => match r with
@@ -209,7 +183,8 @@ def existsUids (res : List Responder) : List UID :=
 /-- **UidsOk**: the database never hands out a UID twice and hands them out in increasing order:
     the queued EXISTS carry strictly ascending UIDs, none of which is in the snapshot, and an
     EXISTS created by the session itself carries a UID above the whole snapshot (it was queued
-    by the session's own command, after which only `NoOwnHeld` flushes happened). -/
+    by the session's own command; a `permitExpunge = false` flush never pops an EXISTS that is
+    queued behind a held-back one). -/
 def UidsOk (sid : StateId) (snap : Snap) (res : List Responder) : Prop :=
   (existsUids res).Pairwise (· < ·) ∧
   (∀ x ∈ snap, ∀ u ∈ existsUids res, x.uid ≠ u) ∧
@@ -217,6 +192,14 @@ def UidsOk (sid : StateId) (snap : Snap) (res : List Responder) : Prop :=
 
 instance (sid : StateId) (snap : Snap) (res : List Responder) : Decidable (UidsOk sid snap res) := by
   unfold UidsOk; infer_instance
+
+/-- **UidsAsc** (implies `UidsOk`): the queued EXISTS carry strictly ascending UIDs, all above every
+    UID of the snapshot — what `UIDNext` gives along every history. -/
+def UidsAsc (snap : Snap) (res : List Responder) : Prop :=
+  (existsUids res).Pairwise (· < ·) ∧ (∀ x ∈ snap, ∀ u ∈ existsUids res, x.uid < u)
+
+instance (snap : Snap) (res : List Responder) : Decidable (UidsAsc snap res) := by
+  unfold UidsAsc; infer_instance
 
 /-- executable `Snap.Inv` -/
 def Snap.invB (s : Snap) : Bool := decide (s.uids.Pairwise (· < ·)) && decide (s.ids.Nodup)
@@ -278,15 +261,14 @@ def runRounds (sid : StateId) : Sess → Mbox → List Round → Sess × Mbox
   | st, mb, [] => (st, mb)
   | st, mb, r :: rs => runRounds sid (st.step sid r) (mb.step r) rs
 
-/-- every change of the history is admissible and broadcasts its responder; every
-    `permitExpunge = false` flush meets a queue inside the named hypotheses -/
+/-- every change of the history is admissible and broadcasts its responder (flushes of the
+    observer are unconstrained: either `permitExpunge`, anywhere) -/
 def RoundsOk (sid : StateId) : Sess → Mbox → List Round → Prop
   | _, _, [] => True
   | st, mb, r :: rs =>
     (match r with
      | .change c resp => mb.Admissible c ∧ RespOf c resp
-     | .flush true => True
-     | .flush false => FetchSafe st.res ∧ NoOwnHeld sid st.res) ∧
+     | .flush _ => True) ∧
     RoundsOk sid (st.step sid r) (mb.step r) rs
 
 /-- the changes of a history, in order -/
